@@ -1,10 +1,10 @@
 package client
 
 import (
+	"bytes"
 	"context"
 	"encoding/json"
 	"fmt"
-	"bytes"
 	"net"
 	"runtime"
 	"sync"
